@@ -28,7 +28,7 @@ for a, b in (('x', 'y'), ('y', 'x')):
         (_mk(rf'^{a}{a}$'), f'{b}{b}'),
         (_mk(rf'^{a}(?=$|\d|_|min|max|cen|pos|peak|idx|size|shape|border|stddev|sigma|fwhm|off|orig|start|stop|fs$|hw|len|'
              rf'grid|bins|range|coord|val|init|fit|err|centroid|cutout|index|indices|edge|extent|half|width|lo$|hi$|low|high|'
-             rf'new|old|arr|data|marg|col|mirror|masked|_?range$|weight|sum|mom|var|std|hat|tr$|rot|prime|name|c$|p$|s$|i$|t$|m$|d$|w$|r$|n$|values?$)'), b),
+             rf'new|old|arr|data|marg|col|mirror|masked|_?range$|radius|weight|sum|mom|var|std|hat|tr$|rot|prime|name|c$|p$|s$|i$|t$|m$|d$|w$|r$|n$|values?$)'), b),
         (_mk(rf'_{a}(?=$|\d|_|min|max|cen|pos|peak|idx|centroid|origin|stddev|fwhm|index|indices|name|shape|size)'), f'_{b}'),
     ]
 _FLIPS_ALL = _FLIPS
